@@ -332,9 +332,12 @@ class Gen:
     def cplx_expr(self, depth):
         if depth <= 0:
             return self.cplx_leaf()
-        k = self.choice(["leaf", "sum", "sum", "prod", "prod", "quot"])
+        k = self.choice(["leaf", "sum", "sum", "prod", "prod", "quot", "cpow"])
         if k == "leaf":
             return self.cplx_leaf()
+        if k == "cpow":
+            # a real base with a complex exponent: the result is complex because of the exponent alone
+            return ["pow", C(self.choice([2, 0.5, 3])), self.cplx_expr(depth - 1)]
         if k == "quot":
             # real over complex, complex over real, complex over complex (constants: never zero)
             num = self.cplx_expr(depth - 1) if self.chance(50) else self.real_expr(min(depth - 1, 1))
